@@ -1083,6 +1083,7 @@ func (e *Engine) eval(s *state, fr *frame, v ssa.Value) *Term {
 	case *ssa.MakeMap:
 		return mk("alloc", fr.ctx+"/makemap@"+e.posStr(x.Pos()), 0, x.Type())
 	case *ssa.MakeSlice:
+		s.emit(Event{Kind: "makeslice", Args: []*Term{e.val(s, fr, x.Len), e.val(s, fr, x.Cap)}, Pos: x.Pos(), Ctx: fr.ctx, Depth: fr.depth, InFn: fr.fn})
 		return mk("alloc", fr.ctx+"/makeslice@"+e.posStr(x.Pos()), 0, x.Type())
 	case *ssa.MakeChan:
 		return mk("alloc", fr.ctx+"/makechan@"+e.posStr(x.Pos()), 0, x.Type())
